@@ -285,10 +285,7 @@ class Network:
                     intro_peer, service, new_style = self._all_addresses[address]
                     if old_style and new_style:
                         continue
-                    services = self.services_per_peer.get(intro_peer, set())
-                    if service:
-                        services.add(service)
-                    if service_id in services:
+                    if service_id == service or service_id in self.services_per_peer.get(intro_peer, set()):
                         new_out.append(address)
                 out = new_out
             return out
